@@ -313,6 +313,13 @@ func (w *World) buildReply(ep *Endpoint, pr *ProbeRec, hp *HopPlan, r *Reply) (b
 				isn = ep.Conn.isn
 			}
 			seg.Ack = isn
+			if ep.Conn != nil && l4.Seq-ep.Conn.isn > 1<<16 {
+				// the segment is outside the receive window of the connection that owns this 4-tuple
+				// (a driver probing with another connection's sequence numbers): a real stack answers
+				// with a bare challenge ACK carrying its own numbers, never with SACK blocks
+				base = "plainack"
+				w.stat("sack.out-of-window-probe")
+			}
 			var opts []byte
 			if lis != nil && lis.L.Timestamps {
 				opts = append(opts, 1, 1)
